@@ -66,7 +66,7 @@ def expectW (e : Env) (s : Par.St) (i : Nat) : Option (Ev × Option (String × N
           | none => some (.scan i, some ("scanEmpty", j, 0, 0, false))
         | none => none
       | none => none
-    | .advance last _ => some (.pushNull i, some ("nullPushed", i, last.fin, e.max, true))
+    | .advance last _ => some (.pushNull i, some ("nullPushed", i, last.fin, e.max, e.isNull ⟨last.fin, e.max⟩))
     | .skipCheck =>
       match w.next with
       | some j =>
